@@ -152,7 +152,10 @@ class Model:
             if w is None: self.forward_active(self.child(node, self.act[node]), k, idx)
             else: self.forward_request(self.child(node, w), k, idx)
         else:
-            for p in sorted(self.obits[node]): self.forward_active(self.kids(node)[p], k, idx)
+            if self.obits[node] or 'ortho-destination-ignored' in self.dev:
+                for p in sorted(self.obits[node]): self.forward_active(self.kids(node)[p], k, idx)
+            else:
+                self.deep_request(node, k, idx)      # no prong addressed: the region itself is the destination
     def forward_request(self, node, k, idx=None):
         kd = self.kind(node)
         self.pin(node, idx)
